@@ -3,6 +3,7 @@ NC = 1
 NR = 3
 Limit = 2
 Mutant = 0
+BigC = 1
 INIT TInit
 NEXT TNext
 POSTCONDITION Verdict
